@@ -133,12 +133,11 @@ Definition appendBitString (s : est) (bytes : list N) (bitsLength : N) (ext : bo
   do bytes <- (if shift =? 8 then Ok bytes
                else do b <- idx bytes (sub64 sizes 1); upd bytes (sub64 sizes 1) (N.land b (shl8 255 shift)));
   if (sizeRange =? 1)%Z then
-    let mismatch := negb (bitsLength =? u64z ub) in
-    if 2 <? sizes then
+    if negb (bitsLength =? u64z ub) then Err E_BITS_FIX       (* returned at once since fix b7bd054 *)
+    else if 2 <? sizes then
       let s := appendAlignBits s in
-      let s := mkest (e_bytes s ++ bytes) (N.land (u64z ub) 7) in
-      if mismatch then Err E_BITS_FIX else Ok s
-    else putBitString s bytes bitsLength            (* the mismatch error is overwritten here *)
+      Ok (mkest (e_bytes s ++ bytes) (N.land (u64z ub) 7))
+    else putBitString s bytes bitsLength
   else
     let rawLength := sub64 bitsLength (u64z lb) in
     bits_frag_loop (S (List.length bytes)) s bytes sizeRange lb rawLength 0.
@@ -180,11 +179,11 @@ Fixpoint rawlen_loop (fuel : nat) (rawLength u : N) : N :=
   | O => rawLength
   | S f => if u =? 0 then rawLength else rawlen_loop f (rawLength + 1) (N.shiftr u 8)
   end.
-(* for byteLen = 1; byteLen <= 127; byteLen++ { u >>= 8; if u <= 1 break } *)
+(* for byteLen = 1; byteLen <= 127; byteLen++ { u >>= 8; if u == 0 break }      (`<= 1` before fix 8116821) *)
 Fixpoint bytelen_loop (fuel : nat) (byteLen u : N) : N :=
   match fuel with
   | O => byteLen
-  | S f => let u' := N.shiftr u 8 in if u' <=? 1 then byteLen else bytelen_loop f (byteLen + 1) u'
+  | S f => let u' := N.shiftr u 8 in if u' =? 0 then byteLen else bytelen_loop f (byteLen + 1) u'
   end.
 
 Definition appendInteger (s : est) (value : Z) (ext : bool) (lbp ubp : option Z) : res est :=
